@@ -214,6 +214,10 @@ pub fn c03_shapes(thorough: bool, seed: u64) -> Vec<Shape> {
         Shape::new("phase2_only", &[Commit], &[&[Chal, AllocMul, AllocMul, Con]]),
         Shape::new("gates_without_any_constraint", &[Commit, AllocMul, AllocMul], &[]),
         Shape::new("identity_commitment", &[Commit, CommitZero, AllocMul, Con], &[]),
+        Shape::new("two_different_closures", &[Commit, AllocMul, Con], &[&[Chal, Mul, Con], &[Chal, AllocMul, Con]]),
+        Shape::new("equal_point_committed_twice", &[Commit, CommitDup, AllocMul, Con, ConCommitted], &[]),
+        Shape::new("pending_allocation_then_closure_allocation", &[Commit, Alloc], &[&[Chal, Alloc, Con]]),
+        Shape::new("empty_combination_first", &[Commit, AllocMul, ConEmpty, Con], &[]),
     ];
     if thorough {
         v.push(Shape::new("five_gates_pad8", &[Commit, AllocMul, AllocMul, Mul, Alloc, Alloc, Con], &[&[Chal, AllocMul, Con]]));
